@@ -343,6 +343,14 @@ func TestVerifC49(t *testing.T) {
 				classes = append(classes, "leading-zero-tie")
 			}
 		}
+		weighted := false
+		if len(servers) < 16 && rapid.IntRange(0, 5).Draw(rt, "weighted") == 0 {
+			// "A server is given more weight if it's listed multiple times" (SetServers): the same
+			// address twice. Single and batch placement still have to agree, in any listing order.
+			servers = append(servers, servers[rapid.IntRange(0, len(servers)-1).Draw(rt, "weightIdx")])
+			weighted = true
+			classes = append(classes, "server-listed-twice")
+		}
 		servers = rapid.Permutation(servers).Draw(rt, "listing")
 		perm := rapid.Permutation(servers).Draw(rt, "perm")
 		keys := genKeys(rt)
@@ -379,7 +387,7 @@ func TestVerifC49(t *testing.T) {
 			step := rapid.SampledFrom([]int{1, 1, 2, 10, 100}).Draw(rt, "step")
 			if maxN+step <= 255 || !strings.HasPrefix(fam.kind, "ipv4") {
 				added = fam.fn(maxN + step)
-				addedLast = !mixed && !zeroPadded
+				addedLast = !mixed && !zeroPadded && !weighted
 				if addedLast {
 					classes = append(classes, "added-last")
 				} else {
